@@ -8,6 +8,7 @@ package hexpairwriter
 import (
 	"bytes"
 	"fmt"
+	"os"
 	"strings"
 	"testing"
 )
@@ -55,6 +56,13 @@ func TestGovcStandinHexLayout(t *testing.T) {
 			if maxN > 40 {
 				maxN = 40
 			}
+			if os.Getenv("VERIF_TIER") == "thorough" {
+				// thorough tier: up to three lines plus two cells, at most 100 bytes
+				maxN = 3*width + 2 - start
+				if maxN > 100 {
+					maxN = 100
+				}
+			}
 			for n := 1; n <= maxN; n++ {
 				data := make([]byte, n)
 				for i := range data {
@@ -65,6 +73,9 @@ func TestGovcStandinHexLayout(t *testing.T) {
 				step := 1
 				if n > 12 {
 					step = n / 6
+					if os.Getenv("VERIF_TIER") == "thorough" {
+						step = (n + 15) / 16
+					}
 				}
 				for a := 0; a <= n; a += step {
 					for b := a; b <= n; b += step {
